@@ -473,8 +473,7 @@ def run_load_with(loader, tree):
 # mutation of the quick palettes at site2
 
 FIRST_MUTS = 6      # 0 drop, 1..3 set value VALS[0..2], 4 retag str, 5 retag int
-DOUBLE_MODELS = ['plain', 'perm', 'sav', 'loose', 'styled', 'shapes',
-                 'trap_loose', 'order']
+DOUBLE_MODELS = ['plain', 'sav', 'loose', 'trap_loose']
 
 
 def double_slices():
